@@ -72,7 +72,7 @@ func rootsFor(eng *Engine, tag string) []root {
 		if fn.Parent() != nil {
 			continue // closures are reached through their parents (inlined) or havocked
 		}
-		if eng.callsAnyDeep(fn, want, map[*ssa.Function]bool{}) || eng.updatesTaggedMap(fn, tag) {
+		if eng.callsAnyDeep(fn, want, map[*ssa.Function]bool{}) || eng.updatesTaggedMap(fn, tag) || eng.touchesGuarded(fn, tag) {
 			add(fn, eng.specForFn(fn))
 		}
 	}
@@ -478,6 +478,39 @@ func (eng *Engine) updatesTaggedMap(fn *ssa.Function, tag string) bool {
 	}
 	for _, a := range fn.AnonFuncs {
 		if eng.updatesTaggedMap(a, tag) {
+			return true
+		}
+	}
+	return false
+}
+
+// touchesGuarded: fn (or a closure defined in it) takes the address of a field under a lock rule tagged tag.
+func (eng *Engine) touchesGuarded(fn *ssa.Function, tag string) bool {
+	if len(eng.guarded) == 0 {
+		return false
+	}
+	tmp := &Exec{eng: eng, s: newScript(), compSort: map[string]string{}}
+	for _, b := range fn.Blocks {
+		for _, in := range b.Instrs {
+			fa, ok := in.(*ssa.FieldAddr)
+			if !ok {
+				continue
+			}
+			pt, ok := fa.X.Type().Underlying().(*types.Pointer)
+			if !ok {
+				continue
+			}
+			if _, ok := pt.Elem().Underlying().(*types.Struct); !ok {
+				continue
+			}
+			comp, _ := tmp.fieldComp(pt.Elem(), fa.Field)
+			if gi, ok := eng.guarded[comp]; ok && gi.clause.HasTag(tag) {
+				return true
+			}
+		}
+	}
+	for _, a := range fn.AnonFuncs {
+		if eng.touchesGuarded(a, tag) {
 			return true
 		}
 	}
